@@ -7,6 +7,7 @@ import (
 	"crypto/x509"
 	"encoding/binary"
 	"fmt"
+	"math/big"
 	"strconv"
 	"strings"
 	"time"
@@ -385,6 +386,15 @@ func c06Run(c *hx.Ctx, tier, unit string) {
 		}
 		// certificates of every kind (signed with SHA-384/512 or PSS, issued by RSA / ECDSA / Ed25519
 		// CAs): none of this may change the SignedData, which is SHA-256 with the signer's RSA key
+		// issuer names in forms Go's pkix.Name would not produce (UTF8String, CN first, e-mail address,
+		// domain components, multi-valued RDNs): the SignerInfo must carry the issuer byte for byte
+		for _, iss := range c05Issuers() {
+			ic, ierr := c05Cert(1, iss, big.NewInt(0x5150))
+			if ierr != nil {
+				continue
+			}
+			c06CheckCert(c, "db", gA, 0x27, pls[3], 1, ic, t0, nil)
+		}
 		for _, vc := range keys.Variety(1) {
 			for _, pi := range []int{0, 3} {
 				c06CheckCert(c, "db", gA, 0x27, pls[pi], 1, vc, t0, nil)
